@@ -1471,7 +1471,15 @@ impl Ctx {
         let sh = &self.sh;
         let st = fo.state.get();
         if st == FiberSt::Limbo {
-            return Err(Ctl::Discard("fiber left inside a call chain by an aborted run"));
+            // The run in which this fiber was waiting for another fiber's result ended in an uncaught
+            // error. Whatever an implementation makes of such a fiber (yarel: still "called"), its
+            // suspended activation - frames, handlers, the try block it was in - belongs to the failed
+            // run and must not continue in a later one: a call is refused with a RuntimeError.
+            if args.len() > 1 {
+                return Err(Ctl::Discard("fiber left inside a call chain by an aborted run, called with several arguments"));
+            }
+            sh.event("fiber_call_limbo");
+            return self.fail(EK::Runtime, line);
         }
         // argument-count checks come first
         if st == FiberSt::New {
